@@ -176,6 +176,8 @@ class Store(registering.Registrar):
             levels = name.strip('.').split('.')
             nos = self.shares #start at top where nos is node dict or share
             for level in levels:
+                if isinstance(nos, Share): #shares are leaves, do not descend into fields
+                    return None
                 nos = nos[level] #attempt dict reference
 
         except KeyError: #key error when level not in dict so bad name
@@ -195,6 +197,8 @@ class Store(registering.Registrar):
             levels = name.strip('.').split(".")
             nos = self.shares #start at top where nos =node dict or share
             for level in levels:
+                if isinstance(nos, Share): #shares are leaves, do not descend into fields
+                    return None
                 nos = nos[level]
 
         except KeyError:
@@ -217,6 +221,8 @@ class Store(registering.Registrar):
             levels = name.strip('.').split(".")
             nos = self.shares
             for level in levels:
+                if isinstance(nos, Share): #shares are leaves, do not descend into fields
+                    return None
                 nos = nos[level]
 
         except KeyError:
